@@ -33,6 +33,16 @@ fn contexts(md: &MarkdownIt, r: &str) -> Result<Vec<(&'static str, Option<String
         let mut s = String::new(); shown(&t, &mut s);
         let para = s.strip_prefix('a').and_then(|x| x.strip_suffix('b')).map(|x| x.to_string());
         v.push(("paragraph", para.clone()));
+        // the same in a LONG paragraph: behind 60 links (120 brackets, hundreds of look-ahead steps) a reference still denotes
+        // what it denotes in a short one - nothing accumulated along the paragraph may switch the inline rules off
+        {
+            let pre = "[see-also](/u), ".repeat(60);
+            let t = md.parse(&format!("{}a{}b", pre, r));
+            let mut s = String::new(); shown(&t, &mut s);
+            let shown_pre = "see-also, ".repeat(60);
+            let long = s.strip_prefix(shown_pre.as_str()).and_then(|x| x.strip_prefix('a')).and_then(|x| x.strip_suffix('b')).map(|x| x.to_string());
+            v.push(("paragraph-behind-60-links", long));
+        }
         let a = para.unwrap_or_default();
         // the expected destination is computed with the ENCODER (property C17, checked on its own), not with the parser's
         // `normalize_link` field: a defect in that function must not cancel out on both sides of the comparison
